@@ -1035,6 +1035,9 @@ func body(w *hx.W) {
 			flags = append(flags, string(f), strings.ToLower(string(f)), strings.ToUpper(string(f)))
 		}
 		flags = append(flags, "\\*", "custom", "$Label1", "\\Custom", "a.b-c", "NIL", "é", "\\é")
+		// keywords and extension flags are not case-normalised: every spelling is a value of its own,
+		// whatever was decoded before in this process
+		flags = append(flags, "$MyLabel", "$MYLABEL", "$mylabel", "$MyLabel", "CUSTOM", "Custom", "\\X-Ext", "\\x-ext", "\\X-EXT", "$label1")
 		flags = append(flags, "", "\\", "a b", "a\\b", "\\\\x", "a(b", "a)b", "a{b", "a%b", "a*b", "\\**", "a\"b", "a]b", "a\r\nb", "a\x00b", "a\x7fb", "\\ x", " ", "\\a b")
 		for _, f := range flags {
 			c.flag(m, f)
@@ -1044,7 +1047,7 @@ func body(w *hx.W) {
 		for _, a := range wellKnownAttrs {
 			attrs = append(attrs, string(a), strings.ToLower(string(a)), strings.ToUpper(string(a)))
 		}
-		attrs = append(attrs, "\\X-Custom", "\\é")
+		attrs = append(attrs, "\\X-Custom", "\\é", "\\x-custom", "\\X-CUSTOM", "\\X-Custom")
 		attrs = append(attrs, "", "\\", "NoBackslash", "\\a b", "\\a\\b", "\\a(b", "\\*", "\\a\r\nb", "\\ ", "\\a]")
 		for _, a := range attrs {
 			c.attr(m, a)
